@@ -121,6 +121,20 @@ def _no_interior(t):
     return False
 
 
+def _polyline_only(t):
+    """regions built by set operations / transforms from polylines only have polyline outlines:
+    their control-point box IS their tight box (strokes and curve leaves do not qualify)"""
+    if t.kind == "empty":
+        return True
+    if t.kind == "leaf":
+        return all(v in ("M", "L", "Z") for v in t.args[0])
+    if t.kind in ("simplify", "xf"):
+        return _polyline_only(t.args[0])
+    if t.kind == "op":
+        return _polyline_only(t.args[1]) and _polyline_only(t.args[2])
+    return False
+
+
 class Term:
     """Region term.  kind in leaf|xf|op|simplify|stroke|c2q|empty"""
 
@@ -288,6 +302,56 @@ class Path:
     @property
     def points(self):
         return [p for _, pts in self._segs for p in pts]
+
+    @property
+    def firstPoints(self):
+        return [pts[0] for v, pts in self._segs if v == PathVerb.MOVE]
+
+    @property
+    def controlPointBounds(self):
+        """bounds of all points incl. off-curve ones: exact for leaves; for opaque results some
+        box that contains the (abstract) tight bounds"""
+        from .values import sym_min, sym_max
+
+        t = self.term
+        if _polyline_only(t):
+            return self.bounds
+        if t.kind == "leaf" or t.kind == "empty":
+            pts = self.points
+            if not pts:
+                return (0.0, 0.0, 0.0, 0.0)
+            xs, ys = [p[0] for p in pts], [p[1] for p in pts]
+            return (_fold(sym_min, xs), _fold(sym_min, ys), _fold(sym_max, xs), _fold(sym_max, ys))
+        reg = _registry()
+        b = reg.setdefault("cpbounds", {}).get(t.key)
+        if b is None:
+            n = len(reg["cpbounds"])
+            tb = self.bounds
+            b = tuple(SymReal(z3.Real(f"cpb!{n}!{i}")) for i in range(4))
+            C.cur().axiom(z3.And(b[0].t <= term_of(tb[0]), b[1].t <= term_of(tb[1]), b[2].t >= term_of(tb[2]), b[3].t >= term_of(tb[3])))
+            reg["cpbounds"][t.key] = b
+        return b
+
+    def reverse(self):
+        # contour direction does not change the filled region under either rule for the terms
+        # tracked here (opaque results are fill-rule independent; leaves keep their fill type)
+        return None
+
+    def reset(self):
+        self._segs = []
+        self._term = None
+
+    rewind = reset
+
+    def addPath(self, other):
+        if self._term is not None or other._term is not None:
+            raise C.Inconclusive("abstract Skia: addPath on an opaque result")
+        self._segs.extend(other._segs)
+
+    def __getattr__(self, name):
+        if name.startswith("_"):
+            raise AttributeError(name)
+        raise C.Inconclusive(f"abstract Skia has no model of Path.{name}")
 
     def _flat(self):
         verbs = [_VERB_LETTER[v] for v, _ in self._segs]
